@@ -304,7 +304,8 @@ class C10(fw.Check):
     def gen_values(self, rng):
         kind = rng.choice(["string", "int", "float", "boolean", "date", "time", "datetime", "tuple",
                            "text", "url", "person", "none", "float", "string", "int"])
-        n = rng.randrange(1, 5)
+        # now and then ten and more values: rdf:_10 sorts before rdf:_2 as text
+        n = rng.choice([1, 2, 3, 4, 1, 2, 3, 4, 10, 12])
         if kind == "none":
             return rng.choice([None, "int", "string"]), []
         if kind in ("string", "person"):
@@ -379,7 +380,7 @@ class C10(fw.Check):
             if mode == "custom":
                 custom = rng.choice([{"custom": "Custom"}, {"cell": "MyCell", "mytype": "Mine"},
                                      {"n.s.": "Unspecified"}])
-            entry = rng.choice(["string", "string", "file", "parser"])
+            entry = rng.choice(["string", "string", "file", "parser", "reuse"])
             if entry == "parser":
                 ndocs, mode, custom = 1, "on", {}
             cases.append({"stream": "rt", "docs": [self.gen_doc(rng) for _ in range(ndocs)],
@@ -453,6 +454,13 @@ class C10(fw.Check):
             elif case["entry"] == "parser":
                 from odml.tools.odmlparser import ODMLWriter
                 text = ODMLWriter("RDF").to_string(docs[0], rdf_format=fmt)
+            elif case["entry"] == "reuse":
+                # one writer asked twice (another serialisation first): the second text must still
+                # import to the exported documents
+                writer = RDFWriter(docs, **kw)
+                writer.get_rdf_str("nt" if fmt != "nt" else "xml")
+                text = writer.get_rdf_str(fmt)
+                obs["reused"] = True
             else:
                 text = RDFWriter(docs, **kw).get_rdf_str(fmt)
             parsed = rdflib.Graph().parse(data=text, format=fmt)
@@ -630,7 +638,9 @@ class C10(fw.Check):
         reqs = [{"op": "export", "docs": obs["docs"], "subclassing": case["subclassing"],
                  "default": [list(e) for e in obs["default"]],
                  "custom": [[k, v] for k, v in case["custom"].items()]}]
-        if "graph_parsed" in obs:
+        if "graph_parsed" in obs and not obs.get("reused"):
+            # (a writer asked twice leaves two value nodes per Property in its graph; that text is
+            #  judged by the oracle - the import must give back the documents - not by the model)
             reqs.append({"op": "import", "triples": obs["graph_parsed"]})
         return reqs
 
@@ -724,7 +734,7 @@ class C10(fw.Check):
             return out
         for b in obs["shape"]:
             out.append("graph shape: " + b)
-        if "graph_parsed" in obs and obs["graph_parsed"] != obs["graph"]:
+        if "graph_parsed" in obs and obs["graph_parsed"] != obs["graph"] and not obs.get("reused"):
             only_w = [t for t in obs["graph"] if t not in obs["graph_parsed"]][:2]
             only_p = [t for t in obs["graph_parsed"] if t not in obs["graph"]][:2]
             out.append("serialisation %s does not give back the exported graph: written %s, parsed %s"
